@@ -156,7 +156,7 @@ def _(u):
     same_tensor(u, "reset.mask-consistent", out["action_mask"], (B, N + 1), lambda bb, jj: msn.at(bb, jj), tags=("C01", "C05"))
 
 
-@unit("svrp.rowlocal.step", file=F, func="SVRPEnv._step", props=("C04",))
+@unit("svrp.rowlocal.step", file=F, func="SVRPEnv._step", props=("C04", "C14"))
 def _(u):
     N, K = u.dims("N K")
     env = u.obj(F, "SVRPEnv")
@@ -174,7 +174,7 @@ def _(u):
     rowlocal(u, "step", mk_in, lambda u, td: u.run(F, "SVRPEnv._step", td, selfobj=env), requires=req)
 
 
-@unit("svrp.rowlocal.mask", file=F, func="SVRPEnv.get_action_mask", props=("C04",))
+@unit("svrp.rowlocal.mask", file=F, func="SVRPEnv.get_action_mask", props=("C04", "C14"))
 def _(u):
     N, K = u.dims("N K")
     rowlocal(u, "mask", lambda u, B: state(u, B, N, K), lambda u, td: u.run(F, "SVRPEnv.get_action_mask", td),
